@@ -1730,8 +1730,10 @@ func (k *Kernel) handleStateMachineRoundEntrance(ctx context.Context, s *kState,
 	// And now we need to respond with the matching view.
 	vrv, _, status := s.FindView(re.H, re.R, "(*Kernel).handleStateMachineRoundEntrance")
 	if vrv == nil {
-		// There is one acceptable condition here -- it was before the committing round.
-		if status == ViewBeforeCommitting {
+		// There is one acceptable condition here -- it was before the committing round,
+		// or it was a later round of the height that is already committing;
+		// either way that height's outcome is the committed header.
+		if status == ViewBeforeCommitting || status == ViewWrongCommit {
 			// Then we have to load it from the header store.
 			ch, err := k.hStore.LoadCommittedHeader(ctx, re.H)
 			if err != nil {
